@@ -260,7 +260,7 @@ def check_case(case):
     # ---- assignment histories on ONE object: labels must always follow the object's current metadata
     if tuple(case["band"]) in (BANDS[1], BANDS[3]) and (case.get("full", True) or n in (2, 3, 4)):
         import itertools as _it
-        ops = [("read", None), ("align", "bottom"), ("align", "top"), ("align", "center"), ("center", 1.0), ("bw", 2.0), ("slice", None)]
+        ops = [("read", None), ("align", "bottom"), ("align", "top"), ("align", "center"), ("center", 1.0), ("bw", 2.0), ("slice", None), ("refused", None)]
         if baseband:
             # a baseband signal is re-created by every slice with chan_bw = sample_rate (C16), so an assigned chan_bw cannot
             # survive slicing: chan_bw assignment is outside this history alphabet for baseband classes
@@ -282,6 +282,26 @@ def check_case(case):
                         obj.center_freq = obj.center_freq + arg * obj.chan_bw
                     elif kind == "bw":
                         obj.chan_bw = obj.chan_bw * arg
+                    elif kind == "refused":
+                        # assignments that must be refused leave the labels exactly as they were
+                        before = labels_of(obj.channel_freqs)
+                        for attr, bad in (("chan_bw", 0 * u.Hz), ("chan_bw", -1 * u.MHz), ("chan_bw", 3 * u.s),
+                                          ("center_freq", 5 * u.s), ("freq_align", "middle")):
+                            if baseband and attr == "chan_bw":
+                                continue
+                            try:
+                                setattr(obj, attr, bad)
+                                res.violation("assignment history|invalid value accepted", f"{attr} = {bad!r} accepted", case,
+                                              {"history": names})
+                            except Exception:
+                                pass
+                        after = labels_of(obj.channel_freqs)
+                        if after != before:
+                            res.violation("assignment history|labels changed by refused assignments", f"after {names}: "
+                                          f"{[float(g) for g in before][:3]}.. -> {[float(g) for g in after][:3]}..", case,
+                                          {"history": names})
+                            break
+                        res.hits["refused assignments leave labels"] += 1
                     elif kind == "slice":
                         par = labels_of(obj.channel_freqs)
                         child = obj[:, (1 if obj.nchan > 1 else 0):]
@@ -357,7 +377,7 @@ def main(argv=None):
     return report.run_check(
         PID, gen_cases=gen_cases, check_case=check_case, describe=describe,
         required_hits=["odd nchan forced center", "negative channel bound", "open channel bound", "nested slice",
-                       "even->even->even from non-center alignment", "combined slice", "assignment histories", "stokes component",
+                       "even->even->even from non-center alignment", "combined slice", "assignment histories", "refused assignments leave labels", "stokes component",
                        "trailing-axis selection"],
         assumptions=["Quantity unit scales are exact decimals (kHz = 1000 Hz); tolerance 8 ulp of max(|fc|, n*bw) per level",
                      "empty channel ranges and channel steps are outside the property"],
